@@ -7,7 +7,7 @@ from ..core import AnalysisError, call_name, dotted, kwarg, norm, walk_no_nested
 from ..guards import A, And, Not, Or, implies, path_formula, show_formula, sites
 from ..registry import describe, rule
 from .. import tmatch as tm
-from ..util import calls_named, peel, returns_of
+from ..util import deep_resolve, single_defs, calls_named, peel, returns_of
 
 BN = "pgmpy/models/BayesianNetwork.py"
 MN = "pgmpy/models/MarkovNetwork.py"
@@ -264,6 +264,23 @@ def tree(rc):
     rc.ob(f"BN.to_markov_model builds the moral graph with all nodes: {okm}")
     if not okm:
         rc.fail(f, f.node, "BN -> MN must use the moral graph (all its edges and all its nodes)", construct="moral graph")
+    # FG -> MN: the scope of every factor becomes a CLIQUE of the Markov network (all pairs), not a path through it
+    fg = repo.func(FG, "FactorGraph.to_markov_model")
+    adds = [c for c in repo.calls_in(fg) if call_name(c) == "add_edges_from" and c.args]
+    if not adds:
+        raise AnalysisError("FactorGraph.to_markov_model: edge construction not found")
+    for c in adds:
+        a0 = c.args[0]
+        allp = isinstance(a0, ast.Call) and call_name(a0) == "combinations" and len(a0.args) == 2 and isinstance(a0.args[1], ast.Constant) and a0.args[1].value == 2
+        scope_src = allp and any(isinstance(x, ast.Call) and call_name(x) == "scope" for x in ast.walk(deep_resolve(a0.args[0], single_defs(fg)))) if allp else False
+        rc.ob(f"FactorGraph.to_markov_model: edges `{norm(a0, 60)}`: all pairs of the factor's scope: {bool(allp and scope_src)}")
+        if allp and scope_src:
+            continue
+        if isinstance(a0, ast.Call) and call_name(a0) in ("pairwise", "zip"):
+            rc.fail(fg, c, f"FactorGraph.to_markov_model connects consecutive variables of a scope only (`{norm(a0, 50)}`): a factor over three or more variables becomes a path, its "
+                    "scope is no clique of the Markov network (check_model fails, the junction tree cannot host the factor)", construct="factor scope is a clique")
+        else:
+            raise AnalysisError(f"FactorGraph.to_markov_model: cannot decide whether `{norm(a0, 60)}` yields all pairs of the scope")
     # triangulate
     tr = repo.func(MN, "MarkovNetwork.triangulate")
     early = [s for s in sites(tr.node, lambda n: isinstance(n, ast.Return)) if any(norm(t) == "self.is_triangulated()" and p for t, p in s.conds)]
@@ -291,6 +308,8 @@ def defuse(rc):
     _sh.defuse_rule(rc, _sh.anchor_files("C14"))
 
 MUTANTS = [
+    dict(kind="break", name="factor-scope-path-not-clique", file=FG, expect="C14.tree",
+         old="            mm.add_edges_from(itertools.combinations(scope, 2))", new="            mm.add_edges_from(zip(scope, scope[1:]))"),
     dict(kind="break", name="jt-bookkeeping-by-value", file=MN, expect="C14.once",
          old="        is_used = [False] * len(self.factors)\n", new="        is_used = {factor: False for factor in self.factors}\n"),
     dict(kind="break", name="jt-factor-reused", file=MN, expect="C14.once",
